@@ -18,7 +18,13 @@ var c12Alpha = []*BatchSpec{
 	{Ops: kv("c", "$").Ops, Kids: kid("A", kv("x", "$"))},
 	{Kids: kid("A", kv("y", "$", "x", "<del>"))},
 	{Kids: kid("N", &BatchSpec{Kids: kid("L", kv("z", "$"))})}, // nested: N has no key of its own, N/L has
+	{DelKids: []string{"A"}},
+	{Kids: kid("A", kv("w", "$"))},
 }
+
+// c12Rounds: what is executed between two persistence rounds - one batch, or (last entry) child A deleted and
+// recreated with another key within the same round: the older footers then hold a different incarnation of A.
+var c12Rounds = [][]int{{0}, {1}, {2}, {3}, {4}, {5, 6}}
 
 type c12Job struct {
 	Cfg  int     `json:"cfg"`
@@ -119,7 +125,7 @@ func c12One(cfg Config, seq []int, target, cont int, res *c12Res) *Violation {
 	}
 	w := NewWorld(cfg, c12Alpha)
 	defer w.Teardown()
-	w.probes = []string{"a", "b", "c", "x", "y", "z"}
+	w.probes = []string{"a", "b", "c", "w", "x", "y", "z"}
 	if w.infra != "" {
 		res.Infra = w.infra
 		return nil
@@ -127,8 +133,12 @@ func c12One(cfg Config, seq []int, target, cont int, res *c12Res) *Violation {
 	where := fmt.Sprintf("options %s, rounds %v, revert target %d, continuation %d", cfg, seq, target, cont)
 	var hist []exposure // since the last compaction
 	comp := 0
-	round := func(bi int) *Violation {
-		for _, st := range []string{fmt.Sprintf("B%d", bi), "M"} {
+	round := func(ri int) *Violation {
+		var steps []string
+		for _, bi := range c12Rounds[ri] {
+			steps = append(steps, fmt.Sprintf("B%d", bi))
+		}
+		for _, st := range append(steps, "M") {
 			if !w.Step(st) {
 				res.Infra = where + ": step " + st + " not enabled"
 				return nil
@@ -385,7 +395,7 @@ func checkC12(prop, tier string) int {
 		if len(cur) == maxR {
 			return
 		}
-		for i := range c12Alpha {
+		for i := range c12Rounds {
 			gen(append(cur, i))
 		}
 	}
@@ -452,7 +462,7 @@ func checkC12(prop, tier string) int {
 			"traces_validated_against_impl": tot.Runs,
 			"evaluations":                   tot.Runs,
 			"distinct_nontrivial":           len(tot.Outcomes),
-			"rule":                          "every sequence of 1..R persistence rounds over a 4-batch alphabet (top-level and child-collection writes and deletes) x every revert target of the walk (including none) x 4 continuations (reopen; one more round then reopen; walk again; revert again), on the real store under the controlled scheduler; the walk must yield exactly the contents exposed after each round since the last compaction, newest first, then nil; after a revert: current == target, the directory a power cut right after the revert would leave (every unsynced write lost; synchronous configurations) opens to the target, reopen == target, next round builds on it; walks after a revert use the relaxed oracle of DESIGN.md 4.12",
+			"rule":                          "every sequence of 1..R persistence rounds over a 6-round alphabet (top-level and child-collection writes and deletes, a nested child collection, a child collection deleted and recreated within one round) x every revert target of the walk (including none) x 4 continuations (reopen; one more round then reopen; walk again; revert again), on the real store under the controlled scheduler; the walk must yield exactly the contents exposed after each round since the last compaction, newest first, then nil; after a revert: current == target, the directory a power cut right after the revert would leave (every unsynced write lost; synchronous configurations) opens to the target, reopen == target, next round builds on it; walks after a revert use the relaxed oracle of DESIGN.md 4.12",
 			"samples":                       samples,
 			"exhaustive":                    infra == 0,
 			"max_rounds":                    maxR,
